@@ -50,6 +50,8 @@ def main():
         W = "/tmp/wt/r2-%s" % pid  # round 2: scratch clones
     if any(m in ("m6", "m7", "m8") for m in ms):
         W = "/tmp/wt/r3-%s" % pid  # round 3
+    if any(m in ("m9", "m10", "m11") for m in ms):
+        W = "/tmp/wt/r4-%s" % pid  # round 4
     take_slot()
     for m in ms:
         out = os.path.join(W, "_out", m)
@@ -63,7 +65,7 @@ def main():
         demo_cmd = demo_cmd.replace("/tmp/wt/%s/target" % pid, TARGET)
         import re
         demo_cmd = re.sub(r"git apply [^&;]*(&&|;)\s*", "", demo_cmd)
-        demo_cmd = re.sub(r"cd /tmp/wt/(r[23]-)?%s\s*(&&|;)\s*" % pid, "", demo_cmd)
+        demo_cmd = re.sub(r"cd /tmp/wt/(r[234]-)?%s\s*(&&|;)\s*" % pid, "", demo_cmd)
         mm = re.search(r"(cargo test[^&;|(#`]*)", demo_cmd)
         if mm:
             demo_cmd = mm.group(1).strip()
